@@ -4,8 +4,8 @@ import DirectVerif.Model.SslSplit
 Line-protocol interpreter of the C11 model.
 
   gsplit  nrow ncol keep a0 a1 c p q | mask | acs | xs | ys      -> ok input | target | n free
-  usplit  nrow ncol keep a0 a1 count p q | mask | acs | chosen   -> ok input | target | count free
-  hsplit  nrow ncol keep dir | mask | acs                        -> ok input | target
+  usplit  nrow ncol keep a0 a1 count p q | mask | acs | chosen   -> ok input | target | count free   (last group empty when nothing is drawn)
+  hsplit  nrow ncol keep a0 a1 dir | mask | acs                        -> ok input | target
   seed    | filename code points | slice code points             -> ok seed | tuple
   fwd     kind B C nrow ncol keep a0 a1 dir useSeed | <per sample: mask | acs | filename | slice | kspace |
           c p q idx seed | tuple | xs-or-chosen | ys>             -> ok <per sample: in | tgt | inK | tgtK>
@@ -77,20 +77,20 @@ def opUSplit (hdr mask acs chosen : List Int) : String :=
       if q ≤ 0 || count < 0 || chosen.any (· < 0) then "err BadOp" else
       let kp := keep != 0
       let free := cnt (freeMask kp a0 a1 s.nrow s.ncol s.mask s.acs)
-      if free != 0 && !floorSlackOk free p q count then "err CountOutsideRatio" else
+      if !floorSlackOk free p q count then "err CountOutsideRatio" else
       match uniformSplit kp a0 a1 s.nrow s.ncol s.mask s.acs count.toNat (nats chosen) with
       | .error e => uerr e
-      | .ok (i, t) => okG [ofGrid i, ofGrid t, [count, free]]
+      | .ok (i, t) => okG [ofGrid i, ofGrid t, if count == 0 || free == 0 then [] else [count, free]]
   | _ => "err BadOp"
 
 def opHSplit (hdr mask acs : List Int) : String :=
   match hdr with
-  | [nrow, ncol, keep, dir] =>
+  | [nrow, ncol, keep, a0, a1, dir] =>
     match mkShape nrow ncol keep mask acs, dirOf dir with
     | .error e, _ => e
     | _, none => "err BadOp"
     | .ok s, some d =>
-      let (i, t) := halfSplit d (keep != 0) s.nrow s.ncol s.mask s.acs
+      let (i, t) := halfSplit d (keep != 0) a0 a1 s.nrow s.ncol s.mask s.acs
       okG [ofGrid i, ofGrid t]
   | _ => "err BadOp"
 
@@ -111,7 +111,7 @@ def fwdSample (kind nrow ncol keep a0 a1 dir useSeed coils : Int) (g : List (Lis
       if kind == 2 then
         match dirOf dir with
         | none => .error "err BadOp"
-        | some d => .ok (outGroups (forwardHalf d kp s.nrow s.ncol s.mask s.acs k))
+        | some d => .ok (outGroups (forwardHalf d kp a0 a1 s.nrow s.ncol s.mask s.acs k))
       else if kind == 0 then
         let S := cnt (reducedMask kp s.mask s.acs)
         if !ceilSlackOk S p q c then .error "err CountOutsideRatio" else
@@ -125,7 +125,7 @@ def fwdSample (kind nrow ncol keep a0 a1 dir useSeed coils : Int) (g : List (Lis
         | some o => .ok (outGroups o)
       else if kind == 1 then
         let free := cnt (freeMask kp a0 a1 s.nrow s.ncol s.mask s.acs)
-        if c < 0 || (free != 0 && !floorSlackOk free p q c) then .error "err CountOutsideRatio" else
+        if c < 0 || !floorSlackOk free p q c then .error "err CountOutsideRatio" else
         let src : Sources :=
           { ratioIdx := fun t _ => if t = nats tuple then idx.toNat else 0
             choice := fun t _ _ => if t = nats tuple then nats d0 else [0, 0]
